@@ -7,7 +7,7 @@ CONSTANTS Depth
 VARIABLES hs,        \* states reported in the current epoch (history variable for RecsFirstWarn)
           bcfg, btotal, bsince, bst, brecs, brate, bstd, brmin, bsmin, bfresh, off
 Configs == { [nthr |-> n, ws |-> p[1], ds |-> p[2]] :
-               n \in {0, 1, 2, 3, 5}, p \in {<<"2.0", "3.0">>, <<"0.5", "1.0">>, <<"1.0", "1.0">>} }
+               n \in {0, 1, 2, 3, 5}, p \in {<<"2.0", "3.0">>, <<"0.5", "1.0">>, <<"1.0", "1.0">>, <<"3.0", "2.0">>} }
 B == INSTANCE DDM WITH cfg <- bcfg, total <- btotal, since <- bsince, st <- bst, recs <- brecs,
                        rate <- brate, std <- bstd, rmin <- brmin, smin <- bsmin
 bvars == <<bcfg, btotal, bsince, bst, brecs, brate, bstd, brmin, bsmin>>
